@@ -1,7 +1,9 @@
 from numbers import Number
 from itertools import product
 from qbee import grammar
-from qbee.evalctx import EvaluationContext, Routine, EvalError
+from qbee.evalctx import (
+    EvaluationContext, Routine, Variable, EvalError
+)
 from .memlayout import (
     get_global_var_idx, get_local_var_idx, get_type_size
 )
@@ -121,6 +123,31 @@ class QStruct:
         return lines
 
 
+class ConstAwareRoutine:
+    """The routine an expression is evaluated in, as seen by the
+    debugger: a name that refers to a CONST has the type the compiler
+    gave that constant (the type of its value), not the type its name
+    would have as a variable."""
+
+    def __init__(self, routine, global_consts):
+        self._routine = routine
+        self._global_consts = global_consts
+
+    def __getattr__(self, name):
+        return getattr(self._routine, name)
+
+    def get_variable(self, name):
+        const_type = None
+        if name in self._routine.local_consts:
+            const_type = self._routine.local_consts[name].type
+        elif name in self._global_consts:
+            const_type, _ = self._global_consts[name]
+        if const_type is not None:
+            return Variable(name, type=const_type, scope='local',
+                            routine=self._routine)
+        return self._routine.get_variable(name)
+
+
 class QvmEval(EvaluationContext):
     def __init__(self, cpu, main_routine, user_types, global_consts,
                  global_vars, find_routine_func):
@@ -138,8 +165,10 @@ class QvmEval(EvaluationContext):
         # routine that is being executed
         frame = self.cpu.cur_frame
         if frame is None:
-            return self.main_routine
-        return self.find_routine_func(frame.code_start)
+            routine = self.main_routine
+        else:
+            routine = self.find_routine_func(frame.code_start)
+        return ConstAwareRoutine(routine, self.global_consts)
 
     def eval_lvalue(self, lvalue):
         frame = self.cpu.cur_frame
